@@ -33,7 +33,10 @@ import (
 
 // dseq values that are prefixes of one another in decimal (escrow string
 // keys) and in big-endian binary (market / deployment keys).
-var vDSeqPool = []uint64{1, 12, 123, 256, 257, 65536, 65537, 1 << 32, 1<<32 + 1, 1 << 63}
+// 255 / 65535 / 2^32-1 / 2^64-1: the low bytes are 0xff, so a hand-made
+// "end of prefix" key that mishandles the carry reaches their neighbours
+// (256, 300, 65536, 2^32).
+var vDSeqPool = []uint64{1, 12, 123, 255, 256, 257, 300, 65535, 65536, 65537, 1<<32 - 1, 1 << 32, 1<<32 + 1, 1 << 63, 1<<64 - 1}
 
 var vAttrKeys = []string{"region", "tier", "arch"}
 var vAttrVals = []string{"a", "b"}
